@@ -7,7 +7,19 @@ TECHNIQUE = "Lean 4 theorems over an executable Task/TaskGraph model; model tied
 
 def run(chk: common.Check):
     tg.run_suite(chk, "C06")
+    rule = chk.rule
+    # run-level clauses: every state change of every task during end-to-end runs of the real simulator
+    from harness.suites import _e2e_common as e2e
+
+    e2e.run_suite(chk, "C06", n_quick=100, n_thorough=1500, streams=("regular", "regular", "batch", "dag"))
+    chk.rule = rule + " || end-to-end: " + chk.rule
 
 
 def replay(path) -> int:
+    import json
+
+    if json.loads(open(path).read()).get("suite") == "sim":
+        from harness.suites import _e2e_common as e2e
+
+        return e2e.replay("C06", path)
     return tg.replay("C06", path)
